@@ -1,14 +1,17 @@
 package checks
 
 import (
-	"github.com/volatiletech/authboss/v3"
 	"crypto/sha512"
 	"encoding/base64"
 	"fmt"
+	"github.com/volatiletech/authboss/v3"
 	"github.com/volatiletech/authboss/v3/remember"
+	"io"
 	"net/http"
+	"net/url"
 	"strings"
 	"sync"
+	"time"
 	"unicode/utf8"
 
 	"verif/sim"
@@ -432,7 +435,7 @@ var c07Templates = []sim.Template{
 func init() {
 	register(&Check{
 		ID: "C07", Level: "exploration",
-		Rule:  "histories of issue/use/replay/theft/logout/password-reset over accounts whose identifiers come from a hostile corpus (';', ';;', NUL, non-ASCII, invalid UTF-8 (Latin-1, binary), 320 bytes, trailing ';') and over OAuth2 accounts (identifiers the library builds itself); cookie values presented: live, spent, revoked, stolen onto another browser, net/http-invisible, not base64, no separator, separator first/last, right PID + zero nonce, another account's nonce under this PID, truncated/extended live cookies, 8 KB. Ledger: every rm value seen in a Set-Cookie with the account the server's token table attributes it to, spent/revoked marks. Oracle per request: live cookie from a uid-less browser => put(uid=that account), halfauth, a fresh value, same number of token rows, and no admission to a full-auth route; any other value => no session and the cookie deleted (when the response wrote client state); logged-in browsers are left alone; no rm value is issued unless rm=true was submitted (or rotation); full logins clear halfauth. distinct_nontrivial = distinct (action, cookie state, PID class, session state, uid outcome, #values issued, deleted) signatures.",
+		Rule:  "histories of issue/use/replay/theft/logout/password-reset over accounts whose identifiers come from a hostile corpus (';', ';;', NUL, non-ASCII, invalid UTF-8 (Latin-1, binary), 320 bytes, trailing ';') and over OAuth2 accounts (identifiers the library builds itself); cookie values presented: live, spent, revoked, stolen onto another browser, net/http-invisible, not base64, no separator, separator first/last, right PID + zero nonce, another account's nonce under this PID, truncated/extended live cookies, 8 KB. Ledger: every rm value seen in a Set-Cookie with the account the server's token table attributes it to, spent/revoked marks. Oracle per request: live cookie from a uid-less browser => put(uid=that account), halfauth, a fresh value, same number of token rows, and no admission to a full-auth route; any other value => no session and the cookie deleted (when the response wrote client state); logged-in browsers are left alone; no rm value is issued unless rm=true was submitted (or rotation); full logins clear halfauth. Plus, in every 100th unit, a theft race on a real server with jittered stores: the remember cookie of each of 6 accounts is presented by 6 session-less browsers released at the same moment, the winner's fresh value is raced again, 12 rounds; per race at most one request is answered as the account and at most one fresh value is handed out. distinct_nontrivial = distinct (action, cookie state, PID class, session state, uid outcome, #values issued, deleted) signatures.",
 		Units: func(t string) int { return tierN(t, 800, 40000) },
 		Run: func(c *RunCtx, unit int) {
 			if unit%100 == 0 {
@@ -443,6 +446,15 @@ func init() {
 					c.Stats.Violations = append(c.Stats.Violations, sim.VioRec{Violation: *vio("C07", "token-mint-under-concurrency", "%s", msg), Index: unit})
 				} else {
 					c.Stats.Add("tokens-minted-in-parallel", n)
+					c.Stats.Evaluations += n
+				}
+			}
+			if unit%100 == 50 {
+				// "exactly once" when the owner's browser and a thief present the same cookie at the same moment
+				if msg, n := theftBurst(c.Seed*1000+int64(unit), 6, 6, 12); msg != "" {
+					c.Stats.Violations = append(c.Stats.Violations, sim.VioRec{Violation: *vio("C07", "cookie-honoured-more-than-once|presented-concurrently", "%s", msg), Index: unit})
+				} else {
+					c.Stats.Add("cookies-raced-by-several-browsers", n)
 					c.Stats.Evaluations += n
 				}
 			}
@@ -467,10 +479,95 @@ func init() {
 		},
 		Floors: func(t string) map[string]int {
 			return map[string]int{"rotation:plain-pid": 30, "dead-cookie-presented:spent": 20, "dead-cookie-presented:unknown": 20, "dead-cookie-presented:revoked": 3,
-				"logged-in-browser-left-alone": 50, "issued-on-request:login": 50, "halfauth-refused-on-full-route": 3, "halfauth-admitted-to-plain-route": 3}
+				"logged-in-browser-left-alone": 50, "issued-on-request:login": 50, "halfauth-refused-on-full-route": 3, "halfauth-admitted-to-plain-route": 3, "cookies-raced-by-several-browsers": 100}
 		},
 		Assumptions: []string{"'issued to' is learned from the server's own token table (the i-th AddRememberToken call of a request pairs with the i-th rm value it set)", "the 'deleted from the client' clause is judged only on responses that wrote client state (a handler that errors under the silent error handler writes nothing; that is C11/C18 territory)"},
 	})
+}
+
+// theftBurst: on a real server (jittered stores) G accounts log in with rm=true; each cookie is then
+// presented by K session-less browsers released at the same moment; the value the winner receives is
+// raced again, M rounds. Per race: at most one request is answered as the account and at most one fresh
+// value is handed out. Returns the first discrepancy and the number of races judged.
+func theftBurst(seed int64, G, K, M int) (string, int) {
+	srv, err := newC20Server(seed, false, true, false)
+	if err != nil {
+		return "", 0
+	}
+	defer srv.close()
+	newClient := func() *http.Client {
+		return &http.Client{CheckRedirect: func(*http.Request, []*http.Request) error { return http.ErrUseLastResponse }, Timeout: 30 * time.Second}
+	}
+	races := 0
+	for g := 0; g < G; g++ {
+		pid := fmt.Sprintf("raced%d@site.test", g)
+		srv.store.Put(&world.User{PID: pid, Email: pid, Password: sim.Hash4("Rac3d!passw"), Confirmed: true})
+		req, _ := http.NewRequest("POST", srv.srv.URL+"/auth/login", strings.NewReader(url.Values{"email": {pid}, "password": {"Rac3d!passw"}, "rm": {"true"}}.Encode()))
+		req.Header.Set("Content-Type", "application/x-www-form-urlencoded")
+		rm := ""
+		if resp, err := newClient().Do(req); err == nil {
+			for _, ck := range resp.Cookies() {
+				if ck.Name == "rm" {
+					rm = ck.Value
+				}
+			}
+			io.Copy(io.Discard, resp.Body)
+			resp.Body.Close()
+		}
+		for round := 0; round < M && rm != ""; round++ {
+			type res struct {
+				authed bool
+				next   string
+			}
+			out := make([]res, K)
+			var wg sync.WaitGroup
+			start := make(chan struct{})
+			for k := 0; k < K; k++ {
+				wg.Add(1)
+				go func(k int) {
+					defer wg.Done()
+					rq, _ := http.NewRequest("GET", srv.srv.URL+"/public", nil)
+					rq.AddCookie(&http.Cookie{Name: "rm", Value: rm})
+					hc := newClient()
+					<-start
+					resp, err := hc.Do(rq)
+					if err != nil {
+						return
+					}
+					body, _ := io.ReadAll(resp.Body)
+					resp.Body.Close()
+					out[k].authed = strings.Contains(string(body), "uid="+pid)
+					for _, ck := range resp.Cookies() {
+						if ck.Name == "rm" && ck.Value != "" && ck.MaxAge >= 0 {
+							out[k].next = ck.Value
+						}
+					}
+				}(k)
+			}
+			close(start)
+			wg.Wait()
+			races++
+			authed, next := 0, ""
+			fresh := map[string]int{}
+			for _, o := range out {
+				if o.authed {
+					authed++
+				}
+				if o.next != "" {
+					fresh[o.next]++
+					next = o.next
+				}
+			}
+			if authed > 1 {
+				return fmt.Sprintf("one remember cookie of %s presented by %d browsers at the same moment authenticated %d of them (race %d)", pid, K, authed, round), races
+			}
+			if len(fresh) > 1 || (len(fresh) == 1 && fresh[next] > 1) {
+				return fmt.Sprintf("one remember cookie of %s presented by %d browsers at the same moment: fresh values were handed to more than one of them (%v)", pid, K, fresh), races
+			}
+			rm = next
+		}
+	}
+	return "", races
 }
 
 // mintBurst calls remember.GenerateToken from G goroutines M times each and checks the tokens.
